@@ -75,7 +75,8 @@ Proof. vm_compute. reflexivity. Qed.
 
    Fragment (model/ScalarFrag.v, model/VarProg.v): programs over variables - any number of declarations
    `x := e`, at the top level and inside blocks (a variable declared in a block is visible until the block ends; the
-   compiler gives the d-th declaration of the program text the global slot d), assignments `x = e`, `x += e` (also `-=` `*=` `/=`), `x++`, `x--`, expression statements, conditionals `if c { ... } else { ... }` / `if c { ... }`, condition loops
+   compiler gives the d-th declaration of the program text the global slot d), assignments `x = e`, `x += e` (also `-=` `*=` `/=`), `x++`, `x--`, expression statements, conditionals `if c { ... } else { ... }` / `if c { ... }` (hence also `else if` chains: the parser makes
+   them an else-block holding one conditional), plain loops `for { ... }`, condition loops
    `for c { ... }` and three-clause loops `for x := e; c; x++ { ... }` (with `break` and `continue`) whose blocks are again lists of declarations, assignments, expression statements,
    conditionals and loops, nested to any depth -, whose expressions are built from integer / boolean / nil / string literals, variables visible
    at that point, prefix - and !, the arithmetic and comparison operators (on integers and strings), short-circuit && and
@@ -287,6 +288,29 @@ Example C01_var_program_for_example :
                      match VM.run 500 c tabs 3 nil with RVal (VM.VInt z) _ => z = 3%Z | _ => False end
   | inl _ => False
   end /\ fst (Sem.run 10 (embed_stmts ex_names3 0 nil ex_fprog)) = Sem.OVal (Sem.VInt 3).
+Proof.
+  split; [vm_compute; reflexivity|]. split; [vm_compute; reflexivity|]. split; [vm_compute; reflexivity|].
+  split; vm_compute; [split; reflexivity|reflexivity].
+Qed.
+
+(* ... and with a plain loop:
+     a := 0
+     i := 0
+     for { i++; if i == 3 { continue }; if i > 5 { break }; a += i; t := a; t }
+     a                                                                                         (= 12) *)
+Definition ex_pprog : list stmt :=
+  (SDecl (SInt 0) :: SDecl (SInt 0) ::
+   SLoop (SInc 1 true :: SIf1 (SBin CEq (SVar 1) (SInt 3)) (SContinue :: nil) :: SIf1 (SBin CGt (SVar 1) (SInt 5)) (SBreak :: nil) ::
+          SSetOp 0 BAdd (SVar 1) :: SDecl (SVar 0) :: SExpr (SVar 2) :: nil) ::
+   SExpr (SVar 0) :: nil)%list.
+Example C01_var_program_plain_loop_example :
+  wf_stmts false 0 ex_pprog = true /\ ndecls ex_pprog = 3%nat /\
+  option_map top_result (run_stmts 9 nil ex_pprog ScalarFrag.VNil) = Some (inl (ScalarFrag.VInt 12)) /\
+  match compile_program 10 nil (embed_stmts ex_names3 0 nil ex_pprog) with
+  | inr (c, tabs) => c = Code main_id main_id false 0 (fst (pcode ex_pprog)) (snd (pcode ex_pprog)) nil nil nil /\
+                     match VM.run 500 c tabs 3 nil with RVal (VM.VInt z) _ => z = 12%Z | _ => False end
+  | inl _ => False
+  end /\ fst (Sem.run 10 (embed_stmts ex_names3 0 nil ex_pprog)) = Sem.OVal (Sem.VInt 12).
 Proof.
   split; [vm_compute; reflexivity|]. split; [vm_compute; reflexivity|]. split; [vm_compute; reflexivity|].
   split; vm_compute; [split; reflexivity|reflexivity].
